@@ -167,8 +167,15 @@ func (c *ConstantStruct) Link(scope Scope, t TypeSpec) (ConstantValue, error) {
 		return nil, constantValueCastError{Value: c, Type: t}
 	}
 
+	// The result is a new value: the same literal may be reached through
+	// several constant references and cast to a different struct each time.
+	fields := make(map[string]ConstantValue, len(c.Fields))
+	for name, value := range c.Fields {
+		fields[name] = value
+	}
+
 	for _, field := range s.Fields {
-		f, ok := c.Fields[field.Name]
+		f, ok := fields[field.Name]
 		if !ok {
 			if field.Default == nil {
 				if field.Required {
@@ -181,7 +188,6 @@ func (c *ConstantStruct) Link(scope Scope, t TypeSpec) (ConstantValue, error) {
 				continue
 			}
 			f = field.Default
-			c.Fields[field.Name] = f
 		}
 
 		f, err := f.Link(scope, field.Type)
@@ -196,10 +202,10 @@ func (c *ConstantStruct) Link(scope Scope, t TypeSpec) (ConstantValue, error) {
 			}
 		}
 
-		c.Fields[field.Name] = f
+		fields[field.Name] = f
 	}
 
-	return c, nil
+	return &ConstantStruct{Fields: fields}, nil
 }
 
 // ConstantMap represents a map literal from the Thrift file.
